@@ -95,7 +95,10 @@ def _base_env(cube, seed, mode, extra=None):
     env["VF_CUBE"] = json.dumps(cube)
     env["VF_MODE"] = mode
     env["PYTHONHASHSEED"] = str(seed % 4294967295)
-    env["PYTHONPATH"] = VERIF + os.pathsep + env.get("PYTHONPATH", "")
+    # VERIF_REPO_SRC (optional): analyse another checkout of the repository (e.g. the HEAD snapshot of a background run) instead of the
+    # editable install's /repo/src
+    alt = os.environ.get("VERIF_REPO_SRC")
+    env["PYTHONPATH"] = (alt + os.pathsep if alt else "") + VERIF + os.pathsep + env.get("PYTHONPATH", "")
     env["PYTHONDONTWRITEBYTECODE"] = "1"
     env.pop("VF_JOURNAL", None)
     env.pop("VF_JOURNAL_FD", None)
